@@ -128,6 +128,14 @@ partial def specOf (j : Json) : Option Spec :=
   | some "runnamed" => do some (.runNamed (← specOf (getD j "el")))
   | some "runnone" => do some (.runNone (← fnOf (← str? (getD j "f"))))
   | some "runnonebad" => some .runNoneBad
+  | some "callx" => do
+    let e ← if (getD j "exc").isNull then some Exc.valueError else excOf (← str? (getD j "exc"))
+    some (.callX (← bool? (getD j "none")) e)
+  | some "filterx" => do some (.filterX (← excOf (← str? (getD j "exc"))))
+  | some "synraise" => do some (.synRaise (← excOf (← str? (getD j "exc"))))
+  | some "both" => do some (.both (← valuesOf (getD j "cflow")) (← valuesOf (getD j "iflow")))
+  | some "runalt" => do some (.runAlt (← bool? (getD j "hasrun")) (← attrOf (getD j "alt")))
+  | some "classobj" => some .classObj
   | some "junk" => some .junk
   | some "setctx" => some .setContext
   | some "gen" => (valuesOf (getD j "flow")).map Spec.gen
@@ -269,8 +277,54 @@ def handle (j : Json) : Json :=
       | .ok es =>
         match mkSource es with
         | .error e => initErr e
-        | .ok src => outJson src.call
+        | .ok src =>
+          -- "spec": the right-hand side of `source_tail` (`Element.sourceFlow` of the first data element fed to
+          -- `Sequence(*rest)`)
+          let spec : Json := match dataSeq es with
+            | f :: rest => (match mkSequence rest with
+                            | .ok s => outJson (f.sourceFlow >>= s.run)
+                            | .error _ => Json.null)
+            | [] => Json.null
+          match outJson src.call with
+          | .obj kvs => Json.obj (kvs.insert "spec" spec)
+          | j => j
     | none => err "bad source args"
+  | some "source_rerun" =>
+    -- one `Source(*args)` object called "k" times (every call drained)
+    match specsOf (getD j "args"), nat? (getD j "k") with
+    | some args, some k =>
+      match Spec.toElements args with
+      | .error e => initErr e
+      | .ok es =>
+        match mkSource es with
+        | .error e => initErr e
+        | .ok src => Json.mkObj [("outs", Json.arr ((List.range k).map (fun i => outJson (src.callAt i))).toArray)]
+    | _, _ => err "bad source_rerun args"
+  | some "runifs" =>
+    -- `RunIf(p, *inner).run(flow)` by the history-free `runIfS`
+    match (str? (getD j "p")).bind predOf, specsOf (getD j "inner"), strmOf j with
+    | some p, some inner, some flow =>
+      match Spec.toElements inner with
+      | .error e => initErr e
+      | .ok es =>
+        match runIfSeq (match inner with | [.seq _] => true | _ => false) es with
+        | .error e => initErr e
+        | .ok s => outJson (.ok (runIfS p.eval s.invokeRun flow))
+    | _, _, _ => err "bad runifs args"
+  | some "accold" =>
+    -- the list-level accumulators of `Model/Flow.lean` (`accFill`/`accCompute`) on a flow without floats
+    match accOfJson j, valuesOf (getD j "flow") with
+    | some k, some flow =>
+      match (accOf k).run flow with
+      | .ok ys => Json.mkObj [("r", ofList valueJson ys), ("t", Json.null)]
+      | .error e => Json.mkObj [("r", Json.arr #[]), ("t", Json.str e.name)]
+    | _, _ => err "bad accold args"
+  | some "pyslice" =>
+    match (arr? (getD j "args")).bind (fun a => a.toList.mapM optInt), valuesOf (getD j "flow") with
+    | some [b], some flow => Json.mkObj [("r", ofList valueJson (Lena.C17.pySlice flow none b 1))]
+    | some [a, b], some flow => Json.mkObj [("r", ofList valueJson (Lena.C17.pySlice flow a b 1))]
+    | some [a, b, st], some flow => Json.mkObj [("r", ofList valueJson (Lena.C17.pySlice flow a b ((st.getD 1).toNat)))]
+    | _, _ => err "bad pyslice args"
   | some "source_then" =>
     match specsOf (getD j "args"), specsOf (getD j "prog") with
     | some args, some prog =>
